@@ -17,6 +17,7 @@ from vf import core
 from vf.refs import flashenc_hw as hw
 
 ID = "C13"
+DECOY_CWD = True  # the worker runs in a directory that holds other bytes under every input file name (vf/worker.py)
 LEVEL = "exploration"
 TECHNIQUE = ("runtime monitoring: independent OTFAD/IEE/BEE hardware models unwrap the exported key blobs and read the "
              "encrypted image back; composition law by re-encrypting pieces")
